@@ -6,7 +6,8 @@ SIM = "deterministic simulation with fault injection"
 def register(claim):
     claim("C08", "exploration",
           f"{SIM}: seeded operation histories on one long-lived game object (torn recomputes, scribbled bounds, "
-          "memo eviction as faults), differential oracle against a no-history object; step/unstep undo at env level",
+          "memo eviction, a second caller thread computing another object (line-granular interleaving) as faults), "
+          "differential oracle against a no-history object; step/unstep undo at env level",
           "Seeded search over operation histories (who calls which mutator in which order, with recomputes cancelled "
           "half-way) against a fresh object told only the final knowledge: one bit-exact comparison decides "
           "idempotence, order-freeness, stale-state freedom and exact undo on every history drawn. Sampling, not "
@@ -26,7 +27,8 @@ def register(claim):
           "DESIGN.md section 5, C20")
     claim("C14", "exploration",
           f"{SIM}: seeded iteration histories with checkpoint-restart events through the storage seam; one-step "
-          "refinement of every node against a float64 reference model; twin (restarted vs continuous) equality",
+          "refinement of every node against a float64 reference model; twin (restarted vs continuous) equality; a second "
+          "minimiser of another size iterating between / during (second caller thread) the judged iterations",
           "Every configuration class the property names (n=3,4 all limits incl. above the maximum, n=5 limits 1..3, "
           "plain/plus) is constructed and driven through seeded iteration histories; at every internal node the "
           "strategies are checked to be distributions with the right support and the regret / strategy update is "
@@ -37,7 +39,8 @@ def register(claim):
           "DESIGN.md section 5, C14")
     claim("C10", "exploration",
           f"{SIM}: hidden-randomness seam - twin seeded generator calls separated by entropy jumps of every hidden "
-          "stream, other calls and a change of simulated process image (SimPool worker, fork/fresh); class monitors "
+          "stream, other calls, a change of simulated process image (SimPool worker, fork/fresh) or a second caller "
+          "thread inside a generator; supplied generators with a bounded burst of rare coincidences; class monitors "
           "on every draw",
           "Decides by seeded search whether a seeded generator's output depends on anything in the process besides "
           "(name, n, supplied generator state): call history, global numpy/random streams, module-level generator, "
@@ -49,7 +52,8 @@ def register(claim):
           "DESIGN.md section 5, C10")
     claim("C01", "exploration",
           f"{SIM}: seeded operation histories (reveal / un-reveal / bulk reset / recompute, with recomputes torn by a "
-          "simulated KeyboardInterrupt, scribbled bounds and memo eviction) on one long-lived object; containment "
+          "simulated KeyboardInterrupt, reveals that fail half-way, scribbled bounds, memo eviction, computes "
+          "overlapped with another caller thread's) on one long-lived object; containment "
           "invariant against the hidden game after every completed compute",
           "Claims the history clause: whatever sequence of operations and cancelled recomputes led to a knowledge "
           "set K containing the minimal information, both SA computers give lower <= v <= upper, lower <= upper and "
@@ -60,7 +64,8 @@ def register(claim):
           "DESIGN.md section 5, C01")
     claim("C03", "exploration",
           f"{SIM}: twin objects (one per computer) fed identical histories, several player counts interleaved in one "
-          "simulated process, memo eviction / torn recompute / scribbled bounds injected on one twin",
+          "simulated process, memo eviction / torn recompute / scribbled bounds injected on one twin, computes of "
+          "different objects interleaved line by line in two caller threads",
           "Differential oracle between the two computers after every completed compute of a pair, bit-identical on "
           "exactly representable games and within 1e-9 relative tolerance otherwise, under seeded interleavings of "
           "objects with different n so that the per-n memo is populated, reused and evicted in every order.",
@@ -68,7 +73,7 @@ def register(claim):
           "DESIGN.md section 5, C03")
     claim("C17", "exploration",
           f"{SIM}: refinement of a dictionary reference model over seeded multi-handle histories (original, copies, "
-          "negations) with operations interleaved across aliased handles",
+          "negations) with operations interleaved across aliased handles, including scalar and bulk calls that fail half-way",
           "After every one of 10..50 interleaved public operations every live handle is compared field by field with "
           "its dictionary model through every public getter; untouched handles must stay byte-identical; negation "
           "is checked as swap-and-negate and as an involution. No fault kind applies to this property (stated in "
@@ -78,7 +83,8 @@ def register(claim):
           "DESIGN.md section 5, C17")
     claim("C09", "exploration",
           f"{SIM}: one long-lived environment driven by interleaved clients (agent reset/step/unstep in any order, "
-          "the four solvers probing, calls torn by a simulated KeyboardInterrupt + reset recovery) against a "
+          "the four solvers probing, calls torn by a simulated KeyboardInterrupt + reset recovery, resets whose hidden-game "
+          "source raises, steps overlapped with a second client's call in another thread) against a "
           "reference model of (hidden games drawn, revealed set, counter)",
           "After every returned call every clause of the statement is evaluated against the reference model: known "
           "set and values, mask, observation (also against an independent normalisation when well conditioned), "
@@ -89,7 +95,8 @@ def register(claim):
           "DESIGN.md section 5, C09")
     claim("C07", "exploration",
           f"{SIM}: seeded reveal histories through env.step and reveal_value+compute with probes, torn steps "
-          "(reset-free recovery) and memo evictions between reveals; before/after invariants per reveal",
+          "(reset-free recovery), memo evictions and a second client (between reveals or overlapping them in another "
+          "thread); before/after invariants per reveal",
           "Along every simulated reveal history to full knowledge, interval monotonicity (exact on exact games) and, "
           "for all four registered gap functions, non-increase, non-negativity and zero at full knowledge are "
           "checked per reveal; each registered norm is also compared with its defining formula.",
@@ -98,7 +105,8 @@ def register(claim):
     claim("C11", "exploration",
           f"{SIM}: exhaustive search / best-states / meta-game run under a deterministic stand-in for "
           "multiprocessing.Pool (seeded chunk->worker schedules, worker counts 1..16, fork/fresh process images); "
-          "fresh-object oracle per reveal set; differential over schedules; stub calibrated against the real pool",
+          "fresh-object oracle per reveal set; differential over schedules; interrupted searches, a gap function that "
+          "fails once inside the meta-game, a second caller thread searching; stub calibrated against the real pool",
           "For seeded (game, starting knowledge, k, computer, gap) the enumeration is compared with the set of all "
           "subsets (each exactly once), every reported value bit-for-bit with a fresh object told start+set, results "
           "across 2..3 pool configurations per run, MetaGame.get_value with the search value, and best-states with "
@@ -109,7 +117,8 @@ def register(claim):
     claim("C12", "exploration",
           f"{SIM}: evaluate() under the simulated pool for seeded (processes, image model, chunk->worker schedule) "
           "configurations vs its sequential run; hidden game of every repetition observed through a "
-          "simulator-owned side channel; trajectories replayed on fresh objects",
+          "simulator-owned side channel; trajectories replayed on fresh objects; an earlier evaluation interrupted, "
+          "another caller thread evaluating meanwhile",
           "Clause (a) true trajectories is decided for every evaluation by replaying the recorded coalition ids on "
           "a fresh object over the hidden game that repetition really saw; clause (b) parallelism invariance and "
           "(c) independence by differential comparison across configurations from one seed. The two defects of the "
@@ -130,7 +139,8 @@ def register(claim):
           "DESIGN.md section 5, C13")
     claim("C16", "exploration",
           f"{SIM}: legacy global numpy stream (the wrapper's tie-break source) set from the tape before every step; "
-          "wrapper compared with the inner environment and the reference model after every call",
+          "wrapper pickled / deep-copied mid-session, steps overlapped with another wrapper's step in a second caller "
+          "thread; wrapper compared with the inner environment and the reference model after every call",
           "Seeded sequences of allowed sizes until done (with resets), tie-breaks explored and replayable through "
           "the RNG seam; mask, exactly-one-new-coalition of the right size, info, reward/done pass-through and the "
           "per-size aggregation of the observation are checked after reset and every step.",
